@@ -43,7 +43,8 @@ PROPS = {
     ),
     "C05": dict(
         parts=[dict(driver="C05w", kmod="K_C05w", shard=40, explain=True), dict(driver="C05cli", kmod="K_C05cli", shard=50, explain=True),
-               dict(driver="C05f", kmod="K_C05f", shard=100, explain=True)],
+               dict(driver="C05f", kmod="K_C05f", shard=100, explain=True),
+               dict(driver="C05p", kmod="K_C05p", shard=300)],
         needs_gitbug=True,
         case_timeout="300s",
         corr="Sync.sstep (over World.step, incl. AResetClock) = session actions incl. close/reopen with and without clock files",
